@@ -154,6 +154,48 @@ MidpointRooted(T) ==
 
 RootHeight(T) == SetMax({UpLen(T, t, ROOT) : t \in TipsOf(T)})
 
+(* ---- queries ------------------------------------------------------------------- *)
+(* (nodes are named by the edge above them; ROOT is the root node)                   *)
+NodeDist(T, u, v) == PathLen(T, u, v)                    \* PhyloNode.distance, any two nodes
+
+(* lowest_common_ancestor(tipnames) *)
+LCASet(T, S) == LET I == {w \in Nodes(T) : \A t \in S : w \in Anc(T, t)}
+                IN  CHOOSE w \in I : I \subseteq Anc(T, w)
+
+RECURSIVE UpSeq(_, _, _)       \* the nodes from v up to, not including, its ancestor a
+UpSeq(T, v, a) == IF v = a THEN <<>> ELSE <<v>> \o UpSeq(T, T.par[v], a)
+Rev(s) == [i \in 1..Len(s) |-> s[Len(s) + 1 - i]]
+
+(* get_connecting_edges(u, v): the nodes on the way from u to v; the common      *)
+(* ancestor is left out when both are tips (then these are exactly the edges of  *)
+(* the path)                                                                      *)
+ConnPath(T, u, v) ==
+    LET l == LCA(T, u, v)
+        mid == IF IsTip(T, u) /\ IsTip(T, v) THEN <<>> ELSE <<l>>
+    IN UpSeq(T, u, l) \o mid \o Rev(UpSeq(T, v, l))
+
+RECURSIVE SeqLen(_, _, _)
+SeqLen(T, s, i) == IF i = 0 THEN 0 ELSE T.ln[s[i]] + SeqLen(T, s, i - 1)
+
+(* get_edge_names(t1, t2, outgroup_name=o): the clade of t1 and t2 as seen from  *)
+(* the outgroup tip o (o = "none": as seen from the root): its edges, and the    *)
+(* edge it hangs on ("!root" when there is none)                                  *)
+NoOutgroup == "none"
+EdgeNames(T, t1, t2, o) ==
+    LET R == IF o = NoOutgroup THEN T ELSE Reroot(T, o)
+        j == LCA(R, t1, t2)
+    IN [clade |-> {e \in Dom(R) : j \in Anc(R, e) /\ e # j},
+        stem  |-> IF j = ROOT THEN "!root" ELSE j]
+
+(* the unordered pairs of tips that are farthest apart (max_tip_tip_distance names one) *)
+FarPairs(T) == {{p[1], p[2]} : p \in {q \in TipsOf(T) \X TipsOf(T) :
+                                       q[1] # q[2] /\ PathLen(T, q[1], q[2]) = Diameter(T)}}
+
+SwapTips(T, x, y) ==
+    LET sw(e) == IF e = x THEN y ELSE IF e = y THEN x ELSE e
+    IN [par |-> [e \in Dom(T) |-> T.par[sw(e)]], ln |-> [e \in Dom(T) |-> T.ln[sw(e)]]]
+HasUnary(T) == \E v \in Nodes(T) : Cardinality(Kids(T, v)) = 1
+
 (* ---- precondition classes (structural keys of findings) ------------------------- *)
 Inner(T) == Nodes(T) \ TipsOf(T)
 RootDeg(T) == Cardinality(Kids(T, ROOT))
